@@ -6,20 +6,21 @@ From Coq Require Import ZArith.
 From TL Require Import Lib.Base Lib.GenTypes Model.PlacementTypes Gen.PlacementGen Model.Placement Model.PlacementRun
      Proofs.PlacementStrings Proofs.PlacementMain.
 
-(* 1. With the four quirks off, for every regex engine, every configuration with non-empty directory keys
+(* 1. With the five quirks off, for every regex engine, every configuration with non-empty directory keys
       and every file: the linter model yields exactly the specified outcome - the configuration is
       rejected iff it holds an invalid pattern, otherwise the reported list (file, line, column, message)
       is the one the allow/deny rules prescribe for the project-relative path. *)
 Theorem C18_outcome_exact : forall valid matches q c f,
   q_global_on_covered q = false -> q_prefix_without_separator q = false ->
-  q_path_relative_to_cwd q = false -> q_allow_dict_unsupported q = false ->
+  q_path_relative_to_cwd q = false -> q_allow_dict_unsupported q = false -> q_trailing_slash_depth q = false ->
   cfg_ok c = true ->
   forget (run valid matches q c f) = spec valid matches c f.
 Proof. exact run_exact. Qed.
 Print Assumptions C18_outcome_exact.
 
 Theorem C18_report_exact : forall matches q c p,
-  q_global_on_covered q = false -> q_prefix_without_separator q = false -> cfg_ok c = true ->
+  q_global_on_covered q = false -> q_prefix_without_separator q = false -> q_trailing_slash_depth q = false ->
+  cfg_ok c = true ->
   check_all matches q p c = spec_report matches c p.
 Proof. exact report_exact. Qed.
 Print Assumptions C18_report_exact.
@@ -30,14 +31,15 @@ Print Assumptions C18_report_exact.
 Theorem C18_most_specific_rule : forall p dirs d r,
   spec_rule p dirs = Some (d, r) ->
   In (d, r) dirs /\ contains d p = true /\
-  forall d' r', In (d', r') dirs -> contains d' p = true -> d' = d \/ starts_with (d' ++ "/") d = true.
+  forall d' r', In (d', r') dirs -> contains d' p = true ->
+                rstrip_slash d' = rstrip_slash d \/ starts_with (rstrip_slash d' ++ "/") (rstrip_slash d) = true.
 Proof. exact spec_rule_most_specific. Qed.
 Print Assumptions C18_most_specific_rule.
 
 Theorem C18_contains_is_directory_containment : forall d p,
   contains d p = true ->
   if String.eqb d "/" then List.length (split_on "/" p) = 1
-  else exists rest, rest <> [] /\ split_on "/" p = split_on "/" d ++ rest.
+  else exists rest, rest <> [] /\ split_on "/" p = split_on "/" (rstrip_slash d) ++ rest.
 Proof. exact contains_components. Qed.
 Print Assumptions C18_contains_is_directory_containment.
 
@@ -61,7 +63,8 @@ Print Assumptions C18_verdict_iff.
 
 (* 4. Deny takes precedence over allow. *)
 Theorem C18_deny_precedence : forall matches q c p d r i,
-  q_global_on_covered q = false -> q_prefix_without_separator q = false -> cfg_ok c = true ->
+  q_global_on_covered q = false -> q_prefix_without_separator q = false -> q_trailing_slash_depth q = false ->
+  cfg_ok c = true ->
   spec_rule p (dirs_of c) = Some (d, r) -> spec_denied matches p (r_deny r) = Some i ->
   check_all matches q p c = [(p, 1, 0, spec_dir_deny_msg p d (spec_reason i))].
 Proof. exact deny_precedence. Qed.
@@ -70,7 +73,8 @@ Print Assumptions C18_deny_precedence.
 (* 5. Files satisfying all applicable rules are never reported; nothing is reported when no rules are
       configured (the latter for every quirk vector, i.e. also for the current tree). *)
 Theorem C18_satisfying_not_reported : forall matches q c p,
-  q_global_on_covered q = false -> q_prefix_without_separator q = false -> cfg_ok c = true ->
+  q_global_on_covered q = false -> q_prefix_without_separator q = false -> q_trailing_slash_depth q = false ->
+  cfg_ok c = true ->
   match spec_rule p (dirs_of c) with
   | Some (_, r) => violates matches p r
   | None => (match c_gdeny c with Some l => violates matches p (Build_drule None (Some l)) | None => false end)
@@ -88,7 +92,8 @@ Print Assumptions C18_no_rules_no_report.
 (* 6. The verdict depends only on the path relative to the project root. *)
 Theorem C18_verdict_depends_on_relpath_only : forall valid matches q c f1 f2,
   q_global_on_covered q = false -> q_prefix_without_separator q = false ->
-  q_path_relative_to_cwd q = false -> q_allow_dict_unsupported q = false -> cfg_ok c = true ->
+  q_path_relative_to_cwd q = false -> q_allow_dict_unsupported q = false -> q_trailing_slash_depth q = false ->
+  cfg_ok c = true ->
   relpath f1 = relpath f2 ->
   forget (run valid matches q c f1) = forget (run valid matches q c f2).
 Proof. exact verdict_depends_on_relpath_only. Qed.
@@ -105,12 +110,14 @@ Proof. exact invalid_pattern_rejected. Qed.
 Print Assumptions C18_invalid_pattern_rejected.
 
 (* 8. Confinement (partial; the full statement is 1): the faithful model, with any of the quirks on, is exact
-      on every input outside the four defect classes - no allow item written as a dict, path handed over
+      on every input outside the five defect classes - no allow item written as a dict, path handed over
       absolute or relative to the root itself, no directory key that is a bare string prefix of the path,
+      no directory key written with a trailing slash,
       and the file uncovered or no global lists configured. *)
 Theorem C18_actual_exact_outside_defects_partial : forall valid matches q c f,
   cfg_ok c = true ->
   no_adict c = true -> presented_from_root f = true -> no_bare_prefix c (relpath f) = true ->
+  no_trailing_slash c = true ->
   (spec_rule (relpath f) (dirs_of c) = None \/ (c_gdeny c = None /\ c_gpat c = None)) ->
   forget (run valid matches q c f) = spec valid matches c f.
 Proof. exact run_exact_outside_defects. Qed.
@@ -120,7 +127,7 @@ Print Assumptions C18_actual_exact_outside_defects_partial.
    a satisfied rule; the tables are re.search(.., IGNORECASE) on these strings *)
 Definition ex_cfg : config := {|
   c_dirs := Some [("src", {| r_allow := Some [AStr ".*\.py$"]; r_deny := Some [DDict "test_" (Some "no tests here") None] |});
-                  ("src/api", {| r_allow := Some [AStr "_api\.py$"]; r_deny := None |})];
+                  ("src/api/", {| r_allow := Some [AStr "_api\.py$"]; r_deny := None |})];
   c_gdeny := Some [DStr "\.tmp$"];
   c_gpat := None |}.
 Definition ex_mt : list (string * string * bool) :=
@@ -133,7 +140,7 @@ Example C18_nonvacuous :
   spec (fun _ => true) (tbl_matches ex_mt) ex_cfg (ex_file "src/test_a.py")
     = SReports [("src/test_a.py", 1, 0, "File 'src/test_a.py' not allowed in src: no tests here")] /\
   spec (fun _ => true) (tbl_matches ex_mt) ex_cfg (ex_file "src/api/x.py")
-    = SReports [("src/api/x.py", 1, 0, "File 'src/api/x.py' does not match allowed patterns for src/api")] /\
+    = SReports [("src/api/x.py", 1, 0, "File 'src/api/x.py' does not match allowed patterns for src/api/")] /\
   spec (fun _ => true) (tbl_matches ex_mt) ex_cfg (ex_file "src/api/h_api.py") = SReports [] /\
   spec (fun _ => true) (tbl_matches ex_mt) ex_cfg (ex_file "notes.tmp")
     = SReports [("notes.tmp", 1, 0, "File not allowed in this location")] /\
